@@ -2,7 +2,10 @@ package props
 
 import (
 	"fmt"
+	"go/ast"
 	"go/token"
+	"sort"
+	"strings"
 
 	"golang.org/x/tools/go/ssa"
 
@@ -92,5 +95,88 @@ func c16InsertPositions(c *core.Check) {
 	}
 	if n == 0 {
 		r.Unknown("html/document | insertBox", "-", "no call of insertBox found")
+	}
+}
+
+// c16ContainerClasses (R11): flex and grid containers are the two block-level containers that are not block
+// boxes; the box classes of the port were extended with the grid ones after the flex ones.  A disjunction of
+// box-class tests in the drawing and layout code that lists FlexContainerT among other classes lists GridContainerT
+// too: step 2 of the stacking-context painting (own background and border) left the grid containers out.
+func c16ContainerClasses(c *core.Check) {
+	p := c.Prog
+	r := c.Rule("R11", "flex and grid containers are painted and laid out alike: in html/document and html/layout every disjunction of box-class tests on one box that names FlexContainerT together with another class names GridContainerT too", 2)
+	n := 0
+	for _, rel := range []string{"html/layout", "html/document"} {
+		pk := p.ByPath[rel]
+		if pk == nil {
+			r.Anchor("package " + rel)
+			continue
+		}
+		for _, f := range pk.Syntax {
+			if strings.HasSuffix(p.Fset.Position(f.Pos()).Filename, "_test.go") {
+				continue
+			}
+			var fnName string
+			ast.Inspect(f, func(nd ast.Node) bool {
+				if fd, ok := nd.(*ast.FuncDecl); ok {
+					fnName = fd.Name.Name
+				}
+				be, ok := nd.(*ast.BinaryExpr)
+				if !ok || be.Op != token.LOR {
+					return true
+				}
+				var leaves []ast.Expr
+				var flat func(e ast.Expr)
+				flat = func(e ast.Expr) {
+					e = ast.Unparen(e)
+					if b, ok := e.(*ast.BinaryExpr); ok && b.Op == token.LOR {
+						flat(b.X)
+						flat(b.Y)
+						return
+					}
+					leaves = append(leaves, e)
+				}
+				flat(be)
+				classes := map[string]map[string]bool{}
+				for _, l := range leaves {
+					call, ok := l.(*ast.CallExpr)
+					if !ok || len(call.Args) != 1 {
+						continue
+					}
+					sel, ok := call.Fun.(*ast.SelectorExpr)
+					if !ok || sel.Sel.Name != "IsInstance" {
+						continue
+					}
+					name := ""
+					switch x := sel.X.(type) {
+					case *ast.SelectorExpr:
+						name = x.Sel.Name
+					case *ast.Ident:
+						name = x.Name
+					}
+					arg := p.NodeText(call.Args[0])
+					if classes[arg] == nil {
+						classes[arg] = map[string]bool{}
+					}
+					classes[arg][name] = true
+				}
+				for arg, set := range classes {
+					if !set["FlexContainerT"] || len(set) < 2 {
+						continue
+					}
+					n++
+					var names []string
+					for k := range set {
+						names = append(names, k)
+					}
+					sort.Strings(names)
+					r.Cond(set["GridContainerT"], rel+"."+fnName+" | box classes tested on "+arg, p.Pos(be.Pos()), "FlexContainerT and GridContainerT together", "the disjunction tests "+strings.Join(names, ", ")+" only: a grid container takes another path than a flex container (as the root of a stacking context it painted neither background nor border)")
+				}
+				return false
+			})
+		}
+	}
+	if n == 0 {
+		r.Anchor("disjunctions naming FlexContainerT")
 	}
 }
